@@ -257,12 +257,22 @@ def normalise(ctx, rep):
         rep.fail("R16.3", "from_str:found", "from_str not found")
         return
     rep.fn(b.name)
+    # the parser's phases may live in private helper functions of the module (parse_minor ..): analysed in place
+    from mirq import inline_calls, expand_adaptors
+    mod = GV.rsplit("::", 1)[0] + "::"
+    b = inline_calls(b, lambda d: d.startswith(mod) and "{closure" not in d and not d.startswith("<"), depth=3)
+    b = expand_adaptors(b)
     stores = []
     for bl in b.blocks:
         for st in bl["stmts"]:
             if st["k"] == "assign" and st["place"]["p"] and any(isinstance(p, dict) and p.get("name") == "minor" for p in st["place"]["p"]):
                 stores.append(b.origin(st["rv"]["x"]) if st["rv"]["k"] == "use" else ("rv",))
-    ok = len(stores) == 1 and stores[0][0] == "call" and stores[0][1].endswith("to_ascii_uppercase")
+
+    def uppercased(o):
+        """every way the stored letter can be produced goes through to_ascii_uppercase"""
+        alts = b.alternatives(o)
+        return bool(alts) and all(a[0] == "call" and (a[1] or "").endswith("to_ascii_uppercase") for a in alts)
+    ok = len(stores) == 1 and uppercased(stores[0])
     rep.check("R16.3", "letter-uppercased", ok, "the letter must be stored through to_ascii_uppercase (stores: %s)" % [fmt_origin(s) for s in stores], b.loc(),
               sample={"stores": [fmt_origin(s) for s in stores]})
     guard = b.calls_to(r"is_ascii_alphabetic$")
